@@ -319,6 +319,19 @@ impl<'t, 'a> Gen<'t, 'a> {
         let n = self.t.choose(3);
         (0..n).map(|_| self.g(depth)).collect()
     }
+    /// a constructor id determined by (family, kinds of the arguments): one id always has one signature
+    fn sig_id(base: u32, a: &[BG]) -> u32 {
+        let mut code = 0u32;
+        for g in a {
+            code = code * 4
+                + match g {
+                    BG::T(_) => 1,
+                    BG::L(_) => 2,
+                    BG::C(_) => 3,
+                };
+        }
+        base * 100 + code
+    }
     pub fn ty(&mut self, depth: usize) -> BT {
         if depth == 0 || self.t.chance(30) {
             return match self.t.choose(12) {
@@ -337,10 +350,22 @@ impl<'t, 'a> Gen<'t, 'a> {
         }
         let d = depth - 1;
         match self.t.choose(16) {
-            0 | 1 => BT::Adt(self.t.choose(3) as u32, self.args(d)),
-            2 => BT::AssocTy(20, self.args(d)),
-            3 => BT::OpaqueTy(30, self.args(d)),
-            4 => BT::FnDef(40, self.args(d)),
+            0 | 1 => {
+                let a = self.args(d);
+                BT::Adt(Self::sig_id(self.t.choose(2) as u32, &a), a)
+            }
+            2 => {
+                let a = self.args(d);
+                BT::AssocTy(Self::sig_id(20, &a), a)
+            }
+            3 => {
+                let a = self.args(d);
+                BT::OpaqueTy(Self::sig_id(30, &a), a)
+            }
+            4 => {
+                let a = self.args(d);
+                BT::FnDef(Self::sig_id(40, &a), a)
+            }
             5 => {
                 let n = self.t.choose(3);
                 BT::Tuple((0..n).map(|_| self.ty(d)).collect())
@@ -349,8 +374,14 @@ impl<'t, 'a> Gen<'t, 'a> {
             7 => BT::Slice(Box::new(self.ty(d))),
             8 => BT::Raw(self.t.chance(50), Box::new(self.ty(d))),
             9 | 10 => BT::Ref(self.t.chance(40), self.l(), Box::new(self.ty(d))),
-            11 => BT::Proj(50, self.args(d)),
-            12 => BT::Opaque(60, self.args(d)),
+            11 => {
+                let a = self.args(d);
+                BT::Proj(Self::sig_id(50, &a), a)
+            }
+            12 => {
+                let a = self.args(d);
+                BT::Opaque(Self::sig_id(60, &a), a)
+            }
             13 | 14 => {
                 let n = self.t.choose(3);
                 self.stack.push(vec![K::Lt; n]);
@@ -371,14 +402,14 @@ impl<'t, 'a> Gen<'t, 'a> {
                         0 => {
                             let mut a = vec![self_ty];
                             a.extend(self.args(d));
-                            BWC::AliasEq(51, a, self.ty(d))
+                            BWC::AliasEq(Self::sig_id(51, &a), a, self.ty(d))
                         }
                         1 => BWC::LifetimeOutlives(self.l(), self.l()),
                         2 => BWC::TypeOutlives(self.ty(d), self.l()),
                         _ => {
                             let mut a = vec![self_ty];
                             a.extend(self.args(d));
-                            BWC::Implemented(70 + self.t.choose(2) as u32, a)
+                            BWC::Implemented(Self::sig_id(70 + self.t.choose(2) as u32, &a), a)
                         }
                     };
                     self.stack.pop();
@@ -400,7 +431,10 @@ impl<'t, 'a> Gen<'t, 'a> {
                 0 => BGoal::Eq(self.g(2), self.g(2)),
                 1 => BGoal::WellFormed(self.ty(2)),
                 2 => BGoal::CannotProve,
-                _ => BGoal::Implemented(71, self.args(2)),
+                _ => {
+                    let a = self.args(2);
+                    BGoal::Implemented(Self::sig_id(71, &a), a)
+                }
             };
         }
         let d = depth - 1;
@@ -428,7 +462,8 @@ impl<'t, 'a> Gen<'t, 'a> {
     pub fn clause(&mut self, depth: usize) -> BClause {
         let ks = if self.t.chance(70) { self.some_kinds() } else { vec![] };
         self.stack.push(ks.clone());
-        let consequence = (72, self.args(2));
+        let a = self.args(2);
+        let consequence = (Self::sig_id(72, &a), a);
         let n = self.t.choose(3);
         let conditions = (0..n).map(|_| self.goal(depth.min(1))).collect();
         self.stack.pop();
